@@ -640,8 +640,11 @@ def check_placement(ctx, case, cache=None):
     if d_s is None:
         ctx.exclude(f"margin:{why}")
         return None
+    if d_s[0] != cls:
+        raise Violation(f"C07/placement/{cls}/wrong-class",
+                        f"ligand placement {sigma}: perceived {d_s}")
     got = canon_named(cls, d_s[1], d_s[2])
-    if d_s[0] != cls or got != expected(sigma, sign):
+    if got != expected(sigma, sign):
         rel = ("mirror-image" if not sym.ACHIRAL[cls] and d_s[0] == cls
                and got == expected(sigma, -sign) else "other-arrangement")
         raise Violation(
